@@ -1,15 +1,1124 @@
 package main
 
+// gen.go: the case generator.
+//
+// Structured cases are generated ONLINE: a first VM executes a buffer that initially holds only
+// RET fillers; before every step, if the bytes at the next instruction pointer were not written
+// yet, an instruction that is well-typed for the CURRENT REAL STATE (actual item types, sizes,
+// aliasing, slot contents, open TRY blocks) is chosen and written there. Code is laid out in
+// 64-byte chunks joined by JMP_L; function bodies, CATCH/FINALLY handlers and continuations get
+// fresh chunks; scripts loaded through the harness SYSCALL are generated the same way in their own
+// buffers. The result is a set of ordinary scripts, which the runner (run.go) then executes from
+// scratch on a fresh VM with all oracles. Every executed byte was written before it was executed
+// and is never rewritten, so the second run repeats the first one (unless the gas limit is
+// tighter or the scripts were mutated afterwards, both on purpose).
+//
+// Other kinds: mutated structured scripts (byte flips, shifted jump operands, truncation) and raw
+// random byte strings.
+
 import (
+	"encoding/binary"
+	"math/big"
+
+	"github.com/nspcc-dev/neo-go/pkg/smartcontract/callflag"
+	"github.com/nspcc-dev/neo-go/pkg/smartcontract/scparser"
+	"github.com/nspcc-dev/neo-go/pkg/vm"
 	"github.com/nspcc-dev/neo-go/pkg/vm/opcode"
+	"github.com/nspcc-dev/neo-go/pkg/vm/stackitem"
+	"github.com/nspcc-dev/neo-go/pkg/vm/vmstate"
 
 	"verif/harness/internal/prng"
 )
 
-// generate builds case k. (raw random bytes for now)
-func generate(r *prng.R, k int, thorough bool) *caseProg {
-	n := r.Range(1, 40)
+const (
+	chunk      = 64
+	bufSize    = 64 * chunk
+	maxScripts = 5
+)
+
+type gscript struct {
+	buf     []byte
+	written []bool
+	free    int
+	funcs   []int
+	tryEnd  map[int]int // offset of a TRY_L -> its end chunk (0 = not allocated yet)
+}
+
+func newScript() *gscript {
+	s := &gscript{buf: make([]byte, bufSize), written: make([]bool, bufSize), free: chunk, tryEnd: map[int]int{}}
+	for i := range s.buf {
+		s.buf[i] = byte(opcode.RET)
+	}
+	return s
+}
+
+func (s *gscript) alloc() int {
+	if s.free+chunk > len(s.buf) {
+		return -1
+	}
+	a := s.free
+	s.free += chunk
+	return a
+}
+
+type genWorld struct{ scripts []*gscript }
+
+func (w *genWorld) script(i int) ([]byte, bool) {
+	if i < 0 || i >= len(w.scripts) {
+		return nil, false
+	}
+	return w.scripts[i].buf, true
+}
+
+type block struct {
+	at, catchAt, finallyAt, endAt int
+	state                         int // 0 body, 1 catch, 2 finally
+}
+
+type gframe struct {
+	s         int
+	fn        int // offset the context started at
+	isCall    bool
+	dynamic   bool // loaded with LoadDynamicScript: at most one result
+	blocks    []block
+	remaining int
+	fresh     bool
+}
+
+// insn is one instruction of a planned sequence; its bytes may depend on where it lands.
+type insn struct {
+	n int
+	f func(ip int) []byte
+}
+
+func fixed(b ...byte) insn { return insn{len(b), func(int) []byte { return b }} }
+
+func opI(o opcode.Opcode, operand ...byte) insn {
+	return fixed(append([]byte{byte(o)}, operand...)...)
+}
+
+func relI(o opcode.Opcode, target int) insn { // long jump-like instruction with one 4-byte offset
+	return insn{5, func(ip int) []byte { return append([]byte{byte(o)}, le32(target-ip)...) }}
+}
+
+func pushIntI(n int64) insn {
+	switch {
+	case n == -1:
+		return opI(opcode.PUSHM1)
+	case n >= 0 && n <= 16:
+		return opI(opcode.Opcode(int(opcode.PUSH0) + int(n)))
+	case n >= -128 && n < 128:
+		return opI(opcode.PUSHINT8, byte(n))
+	case n >= -32768 && n < 32768:
+		var b [2]byte
+		binary.LittleEndian.PutUint16(b[:], uint16(n))
+		return opI(opcode.PUSHINT16, b[:]...)
+	default:
+		var b [8]byte
+		binary.LittleEndian.PutUint64(b[:], uint64(n))
+		return opI(opcode.PUSHINT64, b[:]...)
+	}
+}
+
+func pushDataI(b []byte) insn {
+	return fixed(append([]byte{byte(opcode.PUSHDATA1), byte(len(b))}, b...)...)
+}
+
+type gen struct {
+	r           *prng.R
+	w           *genWorld
+	v           *vm.VM
+	frames      []gframe
+	budget      int
+	allowCycles bool
+	wild        bool // allow instructions that are likely to fault (limits, overflow)
+	pending     []insn
+	pendS       int
+	pendIP      int
+	idx         map[*byte]int
+	steps       int
+	lastCall    bool // the last executed instruction was CALL/CALL_L/CALLA
+	lastDyn     bool // … was the harness SYSCALL loading a dynamic script
+}
+
+func (g *gen) activeFn(s, fn int) bool {
+	for i := range g.frames {
+		if g.frames[i].s == s && g.frames[i].fn == fn {
+			return true
+		}
+	}
+	return false
+}
+
+func (g *gen) activeScript(s int) bool {
+	for i := range g.frames {
+		if g.frames[i].s == s {
+			return true
+		}
+	}
+	return false
+}
+
+func (g *gen) sidx(c *vm.Context) int {
+	p := c.Program()
+	return g.idx[&p[0]]
+}
+
+func (g *gen) addScript() int {
+	s := newScript()
+	g.w.scripts = append(g.w.scripts, s)
+	g.idx[&s.buf[0]] = len(g.w.scripts) - 1
+	return len(g.w.scripts) - 1
+}
+
+// syncFrames aligns the shadow frames with the real invocation stack.
+func (g *gen) syncFrames() {
+	is := g.v.Istack()
+	for len(g.frames) > len(is) {
+		g.frames = g.frames[:len(g.frames)-1]
+	}
+	for len(g.frames) < len(is) {
+		c := is[len(g.frames)]
+		g.frames = append(g.frames, gframe{s: g.sidx(c), fn: c.NextIP(), isCall: g.lastCall, dynamic: g.lastDyn, remaining: g.r.Range(2, 14), fresh: true})
+	}
+}
+
+func (g *gen) syncBlocks(f *gframe, ip int) {
+	for i := len(f.blocks) - 1; i >= 0; i-- {
+		b := &f.blocks[i]
+		switch ip {
+		case b.catchAt:
+			b.state = 1
+			f.blocks = f.blocks[:i+1]
+			return
+		case b.finallyAt:
+			b.state = 2
+			f.blocks = f.blocks[:i+1]
+			return
+		case b.endAt:
+			f.blocks = f.blocks[:i]
+			return
+		}
+	}
+}
+
+// top returns the current evaluation stack, top first.
+func (g *gen) top() []stackitem.Item {
+	st := g.v.Estack()
+	out := make([]stackitem.Item, st.Len())
+	for i := range out {
+		out[i] = st.Peek(i).Item()
+	}
+	return out
+}
+
+func slotItems(s *vm.Slot) []stackitem.Item {
+	if s == nil || *s == nil {
+		return nil
+	}
+	return []stackitem.Item(*s)
+}
+
+func isSeq(it stackitem.Item) bool {
+	switch it.(type) {
+	case *stackitem.Array, *stackitem.Struct:
+		return true
+	}
+	return false
+}
+
+func isCompound(it stackitem.Item) bool {
+	_, ok := children(it)
+	return ok
+}
+
+func seqLen(it stackitem.Item) int {
+	ch, _ := children(it)
+	if _, m := it.(*stackitem.Map); m {
+		return len(ch) / 2
+	}
+	return len(ch)
+}
+
+// plan builds an instruction sequence against a virtual copy of the current stack.
+type plan struct {
+	g   *gen
+	vs  []stackitem.Item // top first
+	ins []insn
+}
+
+func (p *plan) emit(i insn)                 { p.ins = append(p.ins, i) }
+func (p *plan) pushV(it stackitem.Item)      { p.vs = append([]stackitem.Item{it}, p.vs...) }
+func (p *plan) popV(n int)                  { p.vs = p.vs[min(n, len(p.vs)):] }
+func (p *plan) op(o opcode.Opcode, b ...byte) { p.emit(opI(o, b...)) }
+
+type source struct {
+	kind int // 0 stack position, 1 local, 2 arg, 3 static
+	pos  int
+	it   stackitem.Item
+}
+
+func (p *plan) sources(filter func(stackitem.Item) bool) []source {
+	var out []source
+	for i, it := range p.vs {
+		if i < 12 && filter(it) {
+			out = append(out, source{0, i, it})
+		}
+	}
+	c := p.g.v.Context()
+	for k, sl := range []*vm.Slot{c.LocalsSlot(), c.ArgumentsSlot(), c.StaticsSlot()} {
+		for i, it := range slotItems(sl) {
+			if it != nil && filter(it) {
+				out = append(out, source{k + 1, i, it})
+			}
+		}
+	}
+	return out
+}
+
+func (p *plan) bring(s source) {
+	switch s.kind {
+	case 0:
+		switch s.pos {
+		case 0:
+			p.op(opcode.DUP)
+		case 1:
+			p.op(opcode.OVER)
+		default:
+			p.emit(pushIntI(int64(s.pos)))
+			p.op(opcode.PICK)
+		}
+	default:
+		base := []opcode.Opcode{opcode.LDLOC0, opcode.LDARG0, opcode.LDSFLD0}[s.kind-1]
+		gen := []opcode.Opcode{opcode.LDLOC, opcode.LDARG, opcode.LDSFLD}[s.kind-1]
+		if s.pos <= 6 && p.g.r.Chance(3, 4) {
+			p.op(opcode.Opcode(int(base) + s.pos))
+		} else {
+			p.op(gen, byte(s.pos))
+		}
+	}
+	p.pushV(s.it)
+}
+
+var bigInts = []string{
+	"57896044618658097711785492504343953926634992332820282019728792003956564819967",  // 2^255-1
+	"-57896044618658097711785492504343953926634992332820282019728792003956564819968", // -2^255
+	"340282366920938463463374607431768211456",                                        // 2^128
+	"9223372036854775807", "-9223372036854775808", "18446744073709551616",
+}
+
+func pushBigI(s string) (insn, stackitem.Item) {
+	n, _ := new(big.Int).SetString(s, 10)
+	// two's complement little endian, 32 bytes
+	m := new(big.Int).Set(n)
+	if m.Sign() < 0 {
+		m.Add(m, new(big.Int).Lsh(big.NewInt(1), 256))
+	}
+	be := m.FillBytes(make([]byte, 32))
+	le := make([]byte, 32)
+	for i := range be {
+		le[31-i] = be[i]
+	}
+	return opI(opcode.PUSHINT256, le...), stackitem.NewBigInteger(n)
+}
+
+// fresh pushes a new primitive.
+func (p *plan) fresh() stackitem.Item {
+	r := p.g.r
+	switch r.Intn(12) {
+	case 0:
+		p.op(opcode.PUSHT)
+		p.pushV(stackitem.NewBool(true))
+	case 1:
+		p.op(opcode.PUSHNULL)
+		p.pushV(stackitem.Null{})
+	case 2, 3:
+		b := r.Bytes(r.Intn(6))
+		p.emit(pushDataI(b))
+		p.pushV(stackitem.NewByteArray(b))
+	case 4:
+		if p.g.wild || r.Chance(1, 8) {
+			i, it := pushBigI(bigInts[r.Intn(len(bigInts))])
+			p.emit(i)
+			p.pushV(it)
+			break
+		}
+		fallthrough
+	default:
+		n := int64(r.Intn(7))
+		if r.Chance(1, 8) {
+			n = int64(r.Range(-200, 70000))
+		}
+		p.emit(pushIntI(n))
+		p.pushV(stackitem.Make(n))
+	}
+	return p.vs[0]
+}
+
+// any pushes a fresh primitive, a new empty compound or a copy of an existing reference.
+// avoid: a compound the value must not reach (cycle control), nil = no constraint.
+func (p *plan) any(avoid stackitem.Item) stackitem.Item {
+	r := p.g.r
+	if r.Chance(1, 2) {
+		srcs := p.sources(func(it stackitem.Item) bool {
+			if avoid != nil && !p.g.allowCycles && reachesItem(it, avoid) {
+				return false
+			}
+			return true
+		})
+		if len(srcs) > 0 {
+			// prefer compounds: sharing is what the accounting is about
+			var comp []source
+			for _, s := range srcs {
+				if isCompound(s.it) {
+					comp = append(comp, s)
+				}
+			}
+			if len(comp) > 0 && r.Chance(3, 4) {
+				srcs = comp
+			}
+			s := srcs[r.Intn(len(srcs))]
+			p.bring(s)
+			return s.it
+		}
+	}
+	if r.Chance(1, 4) {
+		switch r.Intn(3) {
+		case 0:
+			p.op(opcode.NEWARRAY0)
+			p.pushV(stackitem.NewArray(nil))
+		case 1:
+			p.op(opcode.NEWSTRUCT0)
+			p.pushV(stackitem.NewStruct(nil))
+		default:
+			p.op(opcode.NEWMAP)
+			p.pushV(stackitem.NewMap())
+		}
+		return p.vs[0]
+	}
+	return p.fresh()
+}
+
+func (p *plan) key() {
+	r := p.g.r
+	if r.Chance(1, 5) {
+		b := []byte{byte('a' + r.Intn(3))}
+		p.emit(pushDataI(b))
+		p.pushV(stackitem.NewByteArray(b))
+		return
+	}
+	n := int64(r.Intn(5))
+	p.emit(pushIntI(n))
+	p.pushV(stackitem.Make(n))
+}
+
+// keyOf pushes a key that is (mostly) present in map m.
+func (p *plan) keyOf(m stackitem.Item) {
+	mm, ok := m.(*stackitem.Map)
+	if !ok || mm.Len() == 0 || p.g.r.Chance(1, 6) {
+		p.key()
+		return
+	}
+	el := mm.Value().([]stackitem.MapElement)
+	switch k := el[p.g.r.Intn(len(el))].Key.(type) {
+	case *stackitem.BigInteger:
+		if k.Big().IsInt64() {
+			p.emit(pushIntI(k.Big().Int64()))
+			p.pushV(k)
+			return
+		}
+	case *stackitem.ByteArray:
+		if b := k.Value().([]byte); len(b) < 30 {
+			p.emit(pushDataI(b))
+			p.pushV(k)
+			return
+		}
+	case stackitem.Bool:
+		if bool(k) {
+			p.op(opcode.PUSHT)
+		} else {
+			p.op(opcode.PUSHF)
+		}
+		p.pushV(k)
+		return
+	}
+	p.key()
+}
+
+func (p *plan) compound(filter func(stackitem.Item) bool) (stackitem.Item, bool) {
+	srcs := p.sources(func(it stackitem.Item) bool { return isCompound(it) && filter(it) })
+	if len(srcs) == 0 {
+		return nil, false
+	}
+	s := srcs[p.g.r.Intn(len(srcs))]
+	p.bring(s)
+	return s.it, true
+}
+
+var convTypes = []stackitem.Type{stackitem.BooleanT, stackitem.IntegerT, stackitem.ByteArrayT, stackitem.BufferT, stackitem.ArrayT, stackitem.StructT, stackitem.MapT}
+
+// choose plans the next instruction sequence for the current real state.
+func (g *gen) choose(f *gframe) []insn {
+	r := g.r
+	v := g.v
+	ctx := v.Context()
+	p := &plan{g: g, vs: g.top()}
+	refs := v.VerifRefs()
+	s := g.w.scripts[f.s]
+	n := len(p.vs)
+
+	if f.fresh {
+		f.fresh = false
+		if ctx.LocalsSlot().Size() == 0 && ctx.ArgumentsSlot().Size() == 0 && *ctx.LocalsSlot() == nil && *ctx.ArgumentsSlot() == nil && r.Chance(3, 4) {
+			a := r.Intn(min(n, 3) + 1)
+			l := r.Intn(4)
+			if a+l == 0 {
+				l = 1
+			}
+			p.op(opcode.INITSLOT, byte(l), byte(a))
+			return p.ins
+		}
+	}
+	if *ctx.StaticsSlot() == nil && !f.isCall && r.Chance(1, 5) {
+		p.op(opcode.INITSSLOT, byte(r.Range(1, 4)))
+		return p.ins
+	}
+	grow := refs < 1200 || (g.wild && r.Chance(1, 2))
+
+	for try := 0; try < 20; try++ {
+		p.ins, p.vs = nil, g.top()
+		switch r.Weighted([]int{10, 12, 12, 8, 6, 10, 8, 9, 6, 5, 9, 3, 4, 3, 2}) {
+		case 0: // push something
+			if !grow {
+				continue
+			}
+			p.any(nil)
+		case 1: // append
+			if !grow {
+				continue
+			}
+			c, ok := p.compound(isSeq)
+			if !ok {
+				continue
+			}
+			p.any(c)
+			p.op(opcode.APPEND)
+		case 2: // setitem
+			c, ok := p.compound(func(it stackitem.Item) bool { return seqLen(it) > 0 || !isSeq(it) })
+			if !ok {
+				continue
+			}
+			if isSeq(c) {
+				i := r.Intn(seqLen(c))
+				if r.Chance(1, 30) {
+					i = seqLen(c)
+				}
+				p.emit(pushIntI(int64(i)))
+				p.pushV(stackitem.Make(i))
+			} else {
+				if !grow {
+					continue
+				}
+				if r.Bool() {
+					p.keyOf(c)
+				} else {
+					p.key()
+				}
+			}
+			p.any(c)
+			p.op(opcode.SETITEM)
+		case 3: // remove
+			c, ok := p.compound(func(it stackitem.Item) bool { return seqLen(it) > 0 })
+			if !ok {
+				continue
+			}
+			if isSeq(c) {
+				p.emit(pushIntI(int64(r.Intn(seqLen(c)))))
+			} else {
+				p.keyOf(c)
+			}
+			p.op(opcode.REMOVE)
+		case 4: // pickitem
+			if !grow {
+				continue
+			}
+			c, ok := p.compound(func(it stackitem.Item) bool { return seqLen(it) > 0 })
+			if !ok {
+				continue
+			}
+			if isSeq(c) {
+				i := r.Intn(seqLen(c))
+				if r.Chance(1, 25) {
+					i = seqLen(c) + r.Intn(2)
+				}
+				p.emit(pushIntI(int64(i)))
+			} else {
+				p.keyOf(c)
+			}
+			p.op(opcode.PICKITEM)
+		case 5: // unary collection instruction on a reference
+			c, ok := p.compound(func(stackitem.Item) bool { return true })
+			if !ok {
+				continue
+			}
+			_, isMap := c.(*stackitem.Map)
+			l := seqLen(c)
+			switch r.Intn(9) {
+			case 0:
+				p.op(opcode.CLEARITEMS)
+			case 1:
+				if isMap || l == 0 {
+					continue
+				}
+				p.op(opcode.POPITEM)
+			case 2:
+				if isMap {
+					continue
+				}
+				p.op(opcode.REVERSEITEMS)
+			case 3:
+				if refs+2*l > 1900 && !g.wild {
+					continue
+				}
+				p.op(opcode.UNPACK)
+			case 4:
+				if !isMap {
+					continue
+				}
+				p.op(opcode.KEYS)
+			case 5:
+				if refs+l > 1900 && !g.wild {
+					continue
+				}
+				p.op(opcode.VALUES)
+			case 6:
+				p.op(opcode.SIZE)
+			case 7:
+				if isMap {
+					continue
+				}
+				t := stackitem.ArrayT
+				if _, a := c.(*stackitem.Array); a {
+					t = stackitem.StructT
+				}
+				if r.Chance(1, 4) {
+					t = c.Type()
+				}
+				if refs+l > 1900 && !g.wild {
+					continue
+				}
+				p.op(opcode.CONVERT, byte(t))
+			default:
+				p.key()
+				p.op(opcode.HASKEY)
+			}
+		case 6: // new compound from the stack / of a size
+			if !grow {
+				continue
+			}
+			switch r.Intn(7) {
+			case 0, 1:
+				k := r.Intn(min(n, 5) + 1)
+				p.emit(pushIntI(int64(k)))
+				p.op([]opcode.Opcode{opcode.PACK, opcode.PACKSTRUCT}[r.Intn(2)])
+			case 2:
+				k := r.Intn(4)
+				for i := 0; i < k; i++ {
+					p.any(nil)
+					p.key()
+				}
+				p.emit(pushIntI(int64(k)))
+				p.op(opcode.PACKMAP)
+			case 3:
+				sz := r.Intn(5)
+				if g.wild && r.Chance(1, 10) {
+					sz = r.Range(500, 2100)
+				}
+				p.emit(pushIntI(int64(sz)))
+				p.op([]opcode.Opcode{opcode.NEWARRAY, opcode.NEWSTRUCT}[r.Intn(2)])
+			case 4:
+				p.emit(pushIntI(int64(r.Intn(5))))
+				p.op(opcode.NEWARRAYT, byte(convTypes[r.Intn(len(convTypes))]))
+			default:
+				p.op([]opcode.Opcode{opcode.NEWARRAY0, opcode.NEWSTRUCT0, opcode.NEWMAP}[r.Intn(3)])
+			}
+		case 7: // stack shuffling
+			ops := []struct {
+				o    opcode.Opcode
+				need int
+			}{{opcode.DUP, 1}, {opcode.OVER, 2}, {opcode.SWAP, 2}, {opcode.ROT, 3}, {opcode.TUCK, 2}, {opcode.NIP, 2}, {opcode.DROP, 1},
+				{opcode.REVERSE3, 3}, {opcode.REVERSE4, 4}, {opcode.DEPTH, 0}, {opcode.PICK, 1}, {opcode.ROLL, 1}, {opcode.XDROP, 1}, {opcode.REVERSEN, 1}, {opcode.CLEAR, 40}}
+			c := ops[r.Intn(len(ops))]
+			if c.o == opcode.CLEAR && r.Chance(1, 8) {
+				c.need = 0
+			}
+			if n < c.need || (!grow && (c.o == opcode.DUP || c.o == opcode.OVER || c.o == opcode.TUCK || c.o == opcode.PICK)) {
+				continue
+			}
+			switch c.o {
+			case opcode.PICK, opcode.ROLL, opcode.XDROP:
+				p.emit(pushIntI(int64(r.Intn(n))))
+			case opcode.REVERSEN:
+				p.emit(pushIntI(int64(r.Intn(n + 1))))
+			}
+			p.op(c.o)
+		case 8: // store into / load from a slot
+			type sl struct {
+				ld, ldn, st, stn opcode.Opcode
+				s                *vm.Slot
+			}
+			all := []sl{{opcode.LDLOC0, opcode.LDLOC, opcode.STLOC0, opcode.STLOC, ctx.LocalsSlot()},
+				{opcode.LDARG0, opcode.LDARG, opcode.STARG0, opcode.STARG, ctx.ArgumentsSlot()},
+				{opcode.LDSFLD0, opcode.LDSFLD, opcode.STSFLD0, opcode.STSFLD, ctx.StaticsSlot()}}
+			c := all[r.Intn(3)]
+			if c.s.Size() == 0 {
+				continue
+			}
+			i := r.Intn(c.s.Size())
+			store := r.Chance(3, 5)
+			if store {
+				if n == 0 || r.Chance(1, 3) {
+					p.any(nil)
+				}
+			} else if !grow {
+				continue
+			}
+			base, long := c.ld, c.ldn
+			if store {
+				base, long = c.st, c.stn
+			}
+			if i <= 6 && r.Chance(3, 4) {
+				p.op(opcode.Opcode(int(base) + i))
+			} else {
+				p.op(long, byte(i))
+			}
+		case 9: // arithmetic / bytes / type tests on fresh or existing primitives
+			g.arith(p, grow)
+			if len(p.ins) == 0 {
+				continue
+			}
+		case 10: // call a function
+			if len(v.Istack()) > 40 && !g.wild {
+				continue
+			}
+			target := -1
+			if len(s.funcs) > 0 && r.Chance(1, 3) {
+				target = s.funcs[r.Intn(len(s.funcs))]
+				if g.activeFn(f.s, target) && !r.Chance(1, 30) {
+					continue
+				}
+			} else if target = s.alloc(); target >= 0 {
+				s.funcs = append(s.funcs, target)
+			}
+			if target < 0 {
+				continue
+			}
+			for k := r.Intn(3); k > 0 && grow; k-- {
+				p.any(nil)
+			}
+			if r.Chance(1, 3) {
+				p.emit(relI(opcode.PUSHA, target))
+				p.op(opcode.CALLA)
+			} else {
+				p.emit(relI(opcode.CALLL, target))
+			}
+		case 11: // open a TRY block
+			if len(f.blocks) >= 3 && !g.wild {
+				continue
+			}
+			c, fi := 0, 0
+			switch r.Intn(3) {
+			case 0:
+				c = s.alloc()
+			case 1:
+				fi = s.alloc()
+			default:
+				c, fi = s.alloc(), s.alloc()
+			}
+			if c < 0 || fi < 0 {
+				continue
+			}
+			p.emit(insn{9, func(ip int) []byte {
+				co, fo := 0, 0
+				if c > 0 {
+					co = c - ip
+				}
+				if fi > 0 {
+					fo = fi - ip
+				}
+				return append(append([]byte{byte(opcode.TRYL)}, le32(co)...), le32(fo)...)
+			}})
+		case 12: // throw
+			handled := false
+			for i := range g.frames {
+				for _, b := range g.frames[i].blocks {
+					if b.state == 0 || (b.state == 1 && b.finallyAt > 0) {
+						handled = true
+					}
+				}
+			}
+			if !handled && !r.Chance(1, 25) {
+				continue
+			}
+			p.any(nil)
+			p.op(opcode.THROW)
+		case 13: // load another script
+			if len(v.Istack()) > 30 && !g.wild {
+				continue
+			}
+			idx := r.Intn(len(g.w.scripts))
+			if len(g.w.scripts) < maxScripts && r.Chance(2, 3) {
+				idx = g.addScript()
+			} else if g.activeScript(idx) && !r.Chance(1, 30) {
+				continue
+			}
+			na := r.Intn(3)
+			for i := 0; i < na; i++ {
+				p.any(nil)
+			}
+			p.emit(fixed(sys(sysLoad, idx, r.Intn(3), na)...))
+		default: // jumps, harness syscalls, rare terminators
+			switch r.Intn(8) {
+			case 0, 1:
+				t := s.alloc()
+				if t < 0 {
+					continue
+				}
+				p.emit(relI(opcode.JMPL, t))
+			case 2, 3:
+				t := s.alloc()
+				if t < 0 {
+					continue
+				}
+				p.any(nil)
+				p.emit(relI([]opcode.Opcode{opcode.JMPIFL, opcode.JMPIFNOTL}[r.Intn(2)], t))
+			case 4:
+				t := s.alloc()
+				if t < 0 {
+					continue
+				}
+				p.emit(pushIntI(int64(r.Intn(3))))
+				p.emit(pushIntI(int64(r.Intn(3))))
+				p.emit(relI([]opcode.Opcode{opcode.JMPEQL, opcode.JMPNEL, opcode.JMPGTL, opcode.JMPGEL, opcode.JMPLTL, opcode.JMPLEL}[r.Intn(6)], t))
+			case 5:
+				p.emit(fixed(sys([]int{sysInterop, sysMkArray, sysBurn}[r.Intn(3)], r.Intn(5), 0, 0)...))
+			case 6:
+				if n == 0 {
+					continue
+				}
+				p.emit(fixed(sys(sysPopOne, 0, 0, 0)...))
+			default:
+				if !r.Chance(1, 6) {
+					f.remaining = 0 // early return
+					p.op(opcode.NOP)
+				} else if r.Bool() {
+					p.op(opcode.ABORT)
+				} else {
+					p.op(opcode.PUSHF)
+					p.op(opcode.ASSERT)
+				}
+			}
+		}
+		if len(p.ins) > 0 {
+			return p.ins
+		}
+	}
+	return []insn{opI(opcode.NOP)}
+}
+
+func (g *gen) arith(p *plan, grow bool) {
+	r := g.r
+	un := []opcode.Opcode{opcode.INC, opcode.DEC, opcode.NEGATE, opcode.ABS, opcode.SIGN, opcode.NZ, opcode.NOT, opcode.INVERT, opcode.SQRT, opcode.ISNULL}
+	bin := []opcode.Opcode{opcode.ADD, opcode.SUB, opcode.MUL, opcode.DIV, opcode.MOD, opcode.AND, opcode.OR, opcode.XOR, opcode.MIN, opcode.MAX,
+		opcode.LT, opcode.GE, opcode.NUMEQUAL, opcode.BOOLAND, opcode.EQUAL, opcode.NOTEQUAL, opcode.SHL, opcode.SHR, opcode.POW}
+	switch r.Intn(6) {
+	case 0:
+		if !grow {
+			return
+		}
+		p.fresh()
+		o := un[r.Intn(len(un))]
+		if o == opcode.SQRT {
+			p.op(opcode.ABS)
+		}
+		p.op(o)
+	case 1:
+		if !grow {
+			return
+		}
+		p.fresh()
+		p.fresh()
+		o := bin[r.Intn(len(bin))]
+		if (o == opcode.SHL || o == opcode.SHR || o == opcode.POW) && !g.wild {
+			p.popV(1)
+			p.ins = p.ins[:len(p.ins)-1]
+			p.emit(pushIntI(int64(r.Intn(9))))
+		}
+		p.op(o)
+	case 2: // EQUAL / ISNULL / ISTYPE on whatever is there (compounds included)
+		if len(p.vs) < 2 {
+			return
+		}
+		switch r.Intn(3) {
+		case 0:
+			p.op(opcode.EQUAL)
+		case 1:
+			p.op(opcode.ISNULL)
+		default:
+			p.op(opcode.ISTYPE, byte(convTypes[r.Intn(len(convTypes))]))
+		}
+	case 3: // byte strings and buffers
+		if !grow {
+			return
+		}
+		sz := r.Intn(9)
+		if g.wild && r.Chance(1, 6) {
+			sz = []int{65535, 131069, 131070, 131071}[r.Intn(4)]
+		}
+		p.emit(pushIntI(int64(sz)))
+		p.op(opcode.NEWBUFFER)
+		switch r.Intn(4) {
+		case 0:
+			p.op(opcode.DUP)
+			p.op(opcode.CAT)
+		case 1:
+			p.emit(pushIntI(int64(sz / 2)))
+			p.op(opcode.LEFT)
+		case 2:
+			p.op(opcode.CONVERT, byte(stackitem.ByteArrayT))
+		}
+	case 4: // big integers at the boundary
+		if !grow || !(g.wild || r.Chance(1, 4)) {
+			return
+		}
+		i, _ := pushBigI(bigInts[r.Intn(3)])
+		p.emit(i)
+		p.op([]opcode.Opcode{opcode.INC, opcode.DEC, opcode.NEGATE, opcode.ABS, opcode.DUP}[r.Intn(5)])
+		if r.Bool() {
+			p.op(opcode.DUP)
+			p.op([]opcode.Opcode{opcode.ADD, opcode.MUL, opcode.SUB}[r.Intn(3)])
+		}
+	default:
+		if !grow {
+			return
+		}
+		p.fresh()
+		p.op(opcode.CONVERT, byte(convTypes[r.Intn(4)]))
+	}
+}
+
+// terminator plans the instruction that leaves the innermost open construct of frame f.
+func (g *gen) terminator(f *gframe, s *gscript) []insn {
+	r := g.r
+	if nb := len(f.blocks); nb > 0 {
+		b := &f.blocks[nb-1]
+		if b.state == 2 {
+			return []insn{opI(opcode.ENDFINALLY)}
+		}
+		if b.endAt == 0 {
+			b.endAt = s.alloc()
+			s.tryEnd[b.at] = b.endAt
+		}
+		if b.endAt > 0 {
+			return []insn{relI(opcode.ENDTRYL, b.endAt)}
+		}
+		return []insn{opI(opcode.RET)}
+	}
+	// leaving a context that owns its evaluation stack: mind the expected number of results
+	ctx := g.v.Context()
+	if want := ctx.NumOfReturnVals(); want >= 0 && len(g.v.Istack()) > 1 && !r.Chance(1, 25) {
+		have := g.v.Estack().Len()
+		if have > want {
+			return []insn{opI(opcode.DROP)}
+		}
+		if have < want {
+			return []insn{opI(opcode.PUSHNULL)}
+		}
+	}
+	if f.dynamic && g.v.Estack().Len() > 1 && !r.Chance(1, 25) {
+		return []insn{opI(opcode.DROP)}
+	}
+	return []insn{opI(opcode.RET)}
+}
+
+// write places one instruction at ip (or a JMP_L to a fresh chunk when the chunk is full).
+func (g *gen) write(s *gscript, ip int, ins []insn) (rest []insn, next int) {
+	end := (ip/chunk + 1) * chunk
+	i := ins[0]
+	rest = ins[1:]
+	next = -1
+	if ip+i.n+5 > end {
+		t := s.alloc()
+		if t < 0 {
+			i, rest = opI(opcode.RET), nil
+			g.budget = 0
+		} else {
+			i, rest, next = relI(opcode.JMPL, t), ins, t
+		}
+	}
+	b := i.f(ip)
+	copy(s.buf[ip:], b)
+	for k := range b {
+		s.written[ip+k] = true
+	}
+	if next < 0 {
+		next = ip + len(b)
+	}
+	return rest, next
+}
+
+// online generates the scripts of one structured case.
+func online(r *prng.R, thorough bool) (*caseProg, int64, bool) {
+	g := &gen{r: r, w: &genWorld{}, idx: map[*byte]int{}}
+	g.addScript()
+	g.budget = r.Range(8, 100)
+	if thorough && r.Chance(1, 4) {
+		g.budget = r.Range(64, 400)
+	}
+	g.allowCycles = r.Chance(1, 8)
+	g.wild = r.Chance(1, 10)
+	p := &caseProg{gasLimit: bigGas, base: vm.ExecFeeFactorMultiplier}
+	v := newVM(p, g.w)
+	g.v = v
+	v.LoadScriptWithHash(g.w.scripts[0].buf, scriptHash(0), callflag.All)
+	maxSteps := 12 * g.budget
+	if thorough {
+		maxSteps = 40 * g.budget
+	}
+	for g.steps = 0; g.steps < maxSteps; g.steps++ {
+		if st := v.State(); st.HasFlag(vmstate.Halt) || st.HasFlag(vmstate.Fault) {
+			break
+		}
+		g.syncFrames()
+		f := &g.frames[len(g.frames)-1]
+		ctx := v.Context()
+		s := g.w.scripts[f.s]
+		ip := ctx.NextIP()
+		g.syncBlocks(f, ip)
+		if ip < len(s.buf) && !s.written[ip] {
+			if len(g.pending) > 0 && (g.pendS != f.s || g.pendIP != ip) {
+				g.pending = nil
+			}
+			if len(g.pending) == 0 {
+				if g.budget <= 0 {
+					f.remaining = 0
+				}
+				if f.remaining <= 0 {
+					g.pending = g.terminator(f, s)
+				} else {
+					g.pending = g.choose(f)
+					f.remaining -= len(g.pending)
+					g.budget -= len(g.pending)
+				}
+			}
+			g.pending, g.pendIP = g.write(s, ip, g.pending)
+			g.pendS = f.s
+		} else {
+			g.pending = nil
+		}
+		// register a TRY about to be executed (written now or earlier)
+		pc := scparser.NewContext(s.buf, ip)
+		op, param, err := pc.Next()
+		if err == nil && op == opcode.TRYL {
+			co := int(int32(binary.LittleEndian.Uint32(param[:4])))
+			fo := int(int32(binary.LittleEndian.Uint32(param[4:])))
+			b := block{at: ip, endAt: s.tryEnd[ip]}
+			if co != 0 {
+				b.catchAt = ip + co
+			}
+			if fo != 0 {
+				b.finallyAt = ip + fo
+			}
+			f.blocks = append(f.blocks, b)
+		}
+		func() {
+			defer func() { _ = recover() }()
+			_ = v.Step()
+		}()
+		g.lastCall = err == nil && (op == opcode.CALL || op == opcode.CALLL || op == opcode.CALLA)
+		g.lastDyn = err == nil && op == opcode.SYSCALL && param[0] == sysLoad && param[2]&3 == 2
+	}
+	out := &caseProg{kind: "gen"}
+	for _, s := range g.w.scripts {
+		out.scripts = append(out.scripts, append([]byte{}, s.buf[:s.free]...))
+	}
+	return out, v.GasConsumed(), g.steps >= maxSteps
+}
+
+func mutate(r *prng.R, p *caseProg) {
+	for m := r.Range(1, 3); m > 0; m-- {
+		s := p.scripts[r.Intn(len(p.scripts))]
+		if len(s) == 0 {
+			continue
+		}
+		// find the written prefix: mutating RET fillers is pointless
+		last := len(s) - 1
+		for last > 0 && s[last] == byte(opcode.RET) {
+			last--
+		}
+		i := r.Intn(last + 1)
+		switch r.Intn(4) {
+		case 0:
+			s[i] ^= 1 << uint(r.Intn(8))
+		case 1:
+			s[i] = byte(r.Intn(256))
+		case 2: // shift a jump-like operand by a little
+			c := scparser.NewContext(s, 0)
+			var at []int
+			for c.NextIP() < len(s) {
+				op, par, err := c.Next()
+				if err != nil {
+					break
+				}
+				if len(par) == 4 && op != opcode.SYSCALL || op == opcode.TRYL {
+					at = append(at, c.IP()+1)
+				}
+			}
+			if len(at) > 0 {
+				s[at[r.Intn(len(at))]] += byte(r.Range(1, 3))
+			}
+		default:
+			s[i] = byte([]opcode.Opcode{opcode.THROW, opcode.RET, opcode.ENDTRY, opcode.ENDFINALLY, opcode.DROP, opcode.CLEAR, opcode.UNPACK}[r.Intn(7)])
+		}
+	}
+	p.kind = "gen-mut"
+}
+
+func rawCase(r *prng.R, thorough bool) *caseProg {
+	n := r.Range(1, 48)
+	if r.Chance(1, 10) {
+		n = r.Range(48, 300)
+	}
 	b := r.Bytes(n)
-	_ = opcode.RET
-	return &caseProg{scripts: [][]byte{b}, gasLimit: 100000, base: 30, kind: "raw"}
+	if r.Chance(1, 2) {
+		// bias towards valid opcodes with short operands so that more than one instruction runs
+		for i := range b {
+			if !opcode.IsValid(opcode.Opcode(b[i])) || r.Chance(1, 6) {
+				b[i] = byte([]opcode.Opcode{opcode.PUSH1, opcode.PUSH2, opcode.NEWARRAY0, opcode.DUP, opcode.APPEND, opcode.PACK, opcode.UNPACK,
+					opcode.NEWMAP, opcode.SETITEM, opcode.DROP, opcode.PUSH0, opcode.NEWARRAY, opcode.NEWSTRUCT, opcode.VALUES, opcode.SWAP, opcode.DEPTH}[r.Intn(16)])
+			}
+		}
+	}
+	return &caseProg{scripts: [][]byte{b, asm(opcode.PUSH1, opcode.PUSH2, opcode.THROW)}, gasLimit: int64(r.Range(0, 200000)), base: int64([]int{1, 30, 10000}[r.Intn(3)]), kind: "raw"}
+}
+
+// generate builds case k.
+func generate(r *prng.R, k int, thorough bool) *caseProg {
+	if r.Chance(1, 5) {
+		return rawCase(r, thorough)
+	}
+	p, gas1, capped := online(r, thorough)
+	p.base = int64([]int{1, 30, 300, 10000}[r.Intn(4)])
+	p.gasLimit = bigGas
+	if capped && !r.Chance(1, 20) {
+		// the generating run was cut: let the gas limit end the real run at about the same place
+		p.gasLimit = gas1*p.base/vm.ExecFeeFactorMultiplier + 1
+	} else if r.Chance(1, 6) {
+		// a limit somewhere inside the run (gas1 = sum of the price coefficients of the first run)
+		p.gasLimit = int64(r.Intn(int(gas1*p.base/vm.ExecFeeFactorMultiplier)+2)) + int64(r.Intn(2))
+	}
+	if r.Chance(1, 7) {
+		mutate(r, p)
+	}
+	return p
 }
